@@ -343,7 +343,7 @@ CHECKS = {
         technique='history enumeration (small) + generation (rapid) of salt-rotation scenarios against a reference server; state inspection for stalls',
         rule=('case = plan (fresh|resumed; per rotation: accepted-before, rejected-by, answered-now counts, announcement kind, answer order). Non-trivial: at least one rotation with '
               'a pending request; distinct by hash of the script.'),
-        must_hit=['server-clock-after-2038', 'same-request-rejected>=4-times-in-a-row', 'session:resumed-stored-without-key-id', 'fresh-keyed+rotation', 'second-rotation', 'rejected-message-is-an-ack', 'salt-notifications-in-a-burst', 'store-fails-once-then-same-salt-again', 'accepted+rejected-mixed', 'pending-across-two-rotations', 'rotation-with-nothing-pending', 'salt-by-new_session_created', 'new_session_created:unique_id=0', 'new_session_created:unique_id=repeated',
+        must_hit=['server-clock-after-2038', 'same-request-rejected>=4-times-in-a-row', 'session:resumed-stored-without-key-id', 'fresh-keyed+rotation', 'second-rotation', 'rejected-message-is-an-ack', 'salt-notifications-in-a-burst', 'store-fails-once-then-same-salt-again', 'accepted+rejected-mixed', 'pending-across-two-rotations', 'rotation-with-nothing-pending', 'server-returns-to-the-salt-stored-at-the-start', 'salt-by-new_session_created', 'new_session_created:unique_id=0', 'new_session_created:unique_id=repeated',
                   'session:resumed', 'verdict:ok'],
         assumptions=['acknowledgements that the server rejects for their stale salt are not "requests": only tagged RPC requests are counted',
                      'the hook after an adoption fires after the salt was assigned and saved, so a concurrently written message may already carry it: a newer salt is never blamed',
